@@ -24,6 +24,9 @@
 #include <fcppt/optional/object.hpp>
 #include <fcppt/optional/reference.hpp>
 
+#include <functional>
+#include <limits>
+#include <string>
 #include <memory>
 #include <stdexcept>
 #include <optional>
@@ -610,6 +613,23 @@ struct tree_sys
       }
       std::vector<int> want(path_values.rbegin(), path_values.rend());
       VRT_CHECK(got == want, std::string("tree:to_root:") + what, "to_root sequence differs");
+      // positions inside one traversal are distinguishable: two iterators are equal exactly when they are the same
+      // number of steps from the start, and only the last increment reaches end(); pre_order likewise
+      {
+        auto const range = fcppt::container::tree::make_to_root(const_cast<tree const &>(t));
+        std::vector<decltype(range.begin())> its;
+        int f2 = 64;
+        for (auto i = range.begin(); i != range.end() && f2 > 0; ++i, --f2)
+          its.push_back(i);
+        bool ok = its.size() == want.size();
+        for (std::size_t x = 0; x < its.size() && ok; ++x)
+        {
+          ok = ok && !(its[x] == range.end()) && (its[x] != range.end());
+          for (std::size_t y = 0; y < its.size() && ok; ++y)
+            ok = ok && ((its[x] == its[y]) == (x == y)) && ((its[x] != its[y]) == (x != y));
+        }
+        VRT_CHECK(ok, std::string("tree:to_root_iterator_equality:") + what, "iterators at different positions of one to_root traversal compare equal (or equal ones differ)");
+      }
       VRT_CHECK(fcppt::container::tree::level(t) == lvl, std::string("tree:level:") + what, "level %zu, model %zu",
                 fcppt::container::tree::level(t), lvl);
     }
@@ -652,6 +672,22 @@ struct tree_sys
           break;
       }
       VRT_CHECK(got == want && gotc == want, std::string("tree:pre_order:") + what, "pre_order sequence differs");
+      if (want.size() <= 8)
+      {
+        auto const range = fcppt::container::tree::make_pre_order(const_cast<tree const &>(t));
+        std::vector<decltype(range.begin())> its;
+        int f2 = 64;
+        for (auto i = range.begin(); i != range.end() && f2 > 0; ++i, --f2)
+          its.push_back(i);
+        bool ok = its.size() == want.size();
+        for (std::size_t x = 0; x < its.size() && ok; ++x)
+        {
+          ok = ok && !(its[x] == range.end()) && (its[x] != range.end());
+          for (std::size_t y = 0; y < its.size() && ok; ++y)
+            ok = ok && ((its[x] == its[y]) == (x == y)) && ((its[x] != its[y]) == (x != y));
+        }
+        VRT_CHECK(ok, std::string("tree:pre_order_iterator_equality:") + what, "iterators at different positions of one pre_order traversal compare equal (or equal ones differ)");
+      }
     }
     VRT_CHECK(fcppt::container::tree::depth(t) == rdepth(r), std::string("tree:depth:") + what, "depth %zu, model %zu",
               fcppt::container::tree::depth(t), rdepth(r));
@@ -960,6 +996,152 @@ static void tree_exceptions()
     }
 }
 
+// ---------------------------------------------------------------- comparison over other element types
+// operator== / != are *defined* through the elements' ==: value equal and children pairwise equal.  With an
+// element type whose == is not reflexive (double holding NaN; a type whose "unknown" never equals anything) the
+// recursive definition gives t != t, and that is what the reference computes.  All shapes up to 4 nodes x every
+// assignment of {1.0, 2.0, NaN} resp. {known 1, known 2, unknown}; every pair of trees, a tree with itself through
+// a second name, with its copy, and the children lists of one node with themselves.
+struct shape
+{
+  std::vector<int> parent; // parent[i] < i, parent[0] = -1
+};
+std::vector<shape> shapes_upto(int n)
+{
+  std::vector<shape> out;
+  for (int k = 1; k <= n; ++k)
+  {
+    std::vector<int> p(static_cast<std::size_t>(k), 0);
+    p[0] = -1;
+    std::function<void(int)> rec = [&](int i) {
+      if (i == k)
+      {
+        out.push_back(shape{p});
+        return;
+      }
+      for (int q = 0; q < i; ++q)
+      {
+        p[static_cast<std::size_t>(i)] = q;
+        rec(i + 1);
+      }
+    };
+    rec(1);
+  }
+  return out;
+}
+struct maybe_known
+{
+  int v; // 0 = unknown: never equal to anything, itself included
+  friend bool operator==(maybe_known const &a, maybe_known const &b) { return a.v != 0 && a.v == b.v; }
+  friend bool operator!=(maybe_known const &a, maybe_known const &b) { return !(a == b); }
+};
+template <class T> struct refnode
+{
+  T v;
+  std::vector<refnode> c;
+};
+template <class T> bool ref_eq(refnode<T> const &a, refnode<T> const &b)
+{
+  if (!(a.v == b.v) || a.c.size() != b.c.size())
+    return false;
+  for (std::size_t i = 0; i < a.c.size(); ++i)
+    if (!ref_eq(a.c[i], b.c[i]))
+      return false;
+  return true;
+}
+template <class T> void build(shape const &sh, std::vector<T> const &vals, fcppt::container::tree::object<T> &t, refnode<T> &r)
+{
+  using tr = fcppt::container::tree::object<T>;
+  std::vector<tr *> nodes{&t};
+  std::vector<std::vector<int>> path{{}}; // child index path of each node in the reference
+  for (std::size_t i = 1; i < sh.parent.size(); ++i)
+  {
+    tr *par = nodes[static_cast<std::size_t>(sh.parent[i])];
+    par->push_back(vals[i]);
+    nodes.push_back(&par->back().get_unsafe().get());
+    refnode<T> *rp = &r;
+    for (int ix : path[static_cast<std::size_t>(sh.parent[i])])
+      rp = &rp->c[static_cast<std::size_t>(ix)];
+    rp->c.push_back(refnode<T>{vals[i], {}});
+    std::vector<int> pth = path[static_cast<std::size_t>(sh.parent[i])];
+    pth.push_back(static_cast<int>(rp->c.size()) - 1);
+    path.push_back(pth);
+  }
+}
+template <class T> void comparison_family(char const *name, std::vector<T> const &alphabet, int max_nodes, char const *(*show)(T const &))
+{
+  using tr = fcppt::container::tree::object<T>;
+  struct inst
+  {
+    std::unique_ptr<tr> t;
+    refnode<T> r;
+    std::string text;
+  };
+  std::vector<inst> all;
+  for (shape const &sh : shapes_upto(max_nodes))
+  {
+    std::size_t const k = sh.parent.size();
+    std::size_t total = 1;
+    for (std::size_t i = 0; i < k; ++i)
+      total *= alphabet.size();
+    for (std::size_t a = 0; a < total; ++a)
+    {
+      std::vector<T> vals;
+      std::size_t x = a;
+      std::string text = "shape";
+      for (std::size_t i = 0; i < k; ++i)
+      {
+        vals.push_back(alphabet[x % alphabet.size()]);
+        x /= alphabet.size();
+        text += " " + std::to_string(sh.parent[i]) + ":" + show(vals.back());
+      }
+      inst in;
+      in.t = std::make_unique<tr>(vals[0]);
+      in.r = refnode<T>{vals[0], {}};
+      build(sh, vals, *in.t, in.r);
+      in.text = text;
+      all.push_back(std::move(in));
+    }
+  }
+  std::string const fn = std::string("tree_comparison<") + name + ">";
+  for (std::size_t i = 0; i < all.size(); ++i)
+  {
+    if (!vrt::begin_text(fn.c_str(), fn + " self/copy/children " + all[i].text))
+      continue;
+    tr const &t = *all[i].t;
+    tr const &alias = t;
+    bool const self = ref_eq(all[i].r, all[i].r);
+    vrt::nontrivial(!self);
+    vrt::maybe_sample();
+    VRT_CHECK((t == alias) == self && (t != alias) == !self, fn + ":self", "t == t gives %d, the recursive definition %d", int(t == alias), int(self));
+    tr const cp(t);
+    VRT_CHECK((t == cp) == self && (cp == t) == self && (t != cp) == !self, fn + ":copy", "t == copy(t) gives %d, the recursive definition %d", int(t == cp), int(self));
+    bool kids = true;
+    for (std::size_t c = 0; c < all[i].r.c.size(); ++c)
+      kids = kids && ref_eq(all[i].r.c[c], all[i].r.c[c]);
+    VRT_CHECK((t.children() == alias.children()) == kids, fn + ":children_self", "children() == children() gives %d, element-wise %d",
+              int(t.children() == alias.children()), int(kids));
+  }
+  for (std::size_t i = 0; i < all.size(); ++i)
+    for (std::size_t j = 0; j < all.size(); ++j)
+    {
+      if (i == j || !vrt::begin_text(fn.c_str(), fn + " pair " + all[i].text + " / " + all[j].text))
+        continue;
+      bool const want = ref_eq(all[i].r, all[j].r);
+      vrt::nontrivial(want);
+      bool const got = *all[i].t == *all[j].t;
+      VRT_CHECK(got == want && (*all[i].t != *all[j].t) == !want, fn + ":pair", "== gives %d, the recursive definition %d", int(got), int(want));
+    }
+}
+void tree_comparison_elements()
+{
+  double const nan = std::numeric_limits<double>::quiet_NaN();
+  comparison_family<double>("double", {1.0, 2.0, nan}, 4, [](double const &d) -> char const * { return d != d ? "nan" : d == 1.0 ? "1" : "2"; });
+  comparison_family<maybe_known>("maybe_known", {maybe_known{1}, maybe_known{2}, maybe_known{0}}, 4,
+                                 [](maybe_known const &m) -> char const * { return m.v == 0 ? "unknown" : m.v == 1 ? "1" : "2"; });
+  comparison_family<int>("int", {1, 2}, 4, [](int const &v) -> char const * { return v == 1 ? "1" : "2"; });
+}
+
 int main(int argc, char **argv)
 {
   vrt::parse_args(argc, argv);
@@ -972,6 +1154,7 @@ int main(int argc, char **argv)
     e.run();
   }, 7200);
   vrt::shard("tree_scale", [] { tree_scale(); });
+  vrt::shard("tree_comparison_elements", [] { tree_comparison_elements(); });
   vrt::shard("tree_exceptions", [] { tree_exceptions(); });
   return vrt::run(argc, argv);
 }
